@@ -37,8 +37,9 @@ struct Site { int kind; int addr_type; uint32_t sec; size_t start, end; uint64_t
 
 struct Case {
   int arch; uint64_t base; bool known_base; std::vector<Item> items; bool extra_section; int label_mode = 0;   // 0 text/after 1 text/before 2 .data/after 3 .data/before
+  int code_sec = 0;   // 0: the items are assembled into .text; 1: into a second executable section that is laid out behind .text
   std::string str() const {
-    char b[128]; snprintf(b, sizeof b, "arch=%s base=%llu known=%d extra=%d label=%d items=", arch_name(arch), (unsigned long long)base, known_base, extra_section, label_mode);
+    char b[128]; snprintf(b, sizeof b, "arch=%s base=%llu known=%d extra=%d label=%d csec=%d items=", arch_name(arch), (unsigned long long)base, known_base, extra_section, label_mode, code_sec);
     std::string s = b;
     for (auto& it : items) s += std::to_string(it.kind) + ":" + std::to_string(it.addr_type) + ":" + std::to_string(it.tsel) + ",";
     s += " #";
@@ -83,8 +84,14 @@ static bool build(const Case& cs, Built& b, uint64_t init_base) {
   };
   if (cs.label_mode == 1 || cs.label_mode == 3) { if (!bind_label()) FAIL("bind", "bind failed"); }
   b.a->embed(nops, cs.arch == AA64 ? 4 : 3);
+  Section* text2 = nullptr;
+  if (cs.code_sec) {
+    if (b.code.new_section(Out(text2), ".text2", SIZE_MAX, SectionFlags::kExecutable, 16, 0) != Error::kOk) FAIL("new_section", "new_section failed");
+    b.a->section(text2); b.a->embed(nops, cs.arch == AA64 ? 4 : 1);
+  }
+  Section* isec = text2 ? text2 : b.code.text_section();
   for (auto& it : cs.items) {
-    Site s; s.kind = it.kind; s.addr_type = it.addr_type; s.sec = 0; s.start = b.code.text_section()->buffer_size(); s.is_label = false; s.imm_size = 0;
+    Site s; s.kind = it.kind; s.addr_type = it.addr_type; s.sec = isec->section_id(); s.start = isec->buffer_size(); s.is_label = false; s.imm_size = 0;
     uint64_t T = resolve_target(kTargets[it.tsel], cs.base, cs.arch);
     s.target = T;
     Error e = Error::kOk;
@@ -113,12 +120,13 @@ static bool build(const Case& cs, Built& b, uint64_t init_base) {
         default: FAIL("harness", "bad item for a64");
       }
     }
-    s.end = b.code.text_section()->buffer_size();
+    s.end = isec->buffer_size();
     if (e != Error::kOk) { b.emit_errors++; if (s.end != s.start) FAIL("failed-emit-appended", "%s failed but appended bytes", item_name(it.kind)); continue; }
     if (s.end == s.start) FAIL("emit-no-bytes", "%s succeeded without bytes", item_name(it.kind));
     b.sites.push_back(s);
   }
   b.a->embed(nops, cs.arch == AA64 ? 8 : 5);
+  if (text2) b.a->section(b.code.text_section());
   if (cs.label_mode == 0 || cs.label_mode == 2) { if (!bind_label()) FAIL("bind", "bind failed"); }
   if (cs.extra_section) {
     // a user section ordered after the address table (same order value, higher id)
@@ -282,7 +290,10 @@ static Case parse_case(const std::string& t) {
   for (auto& line : vh::split(t, '\n')) {
     if (line.rfind("arch=", 0) != 0) continue;
     char an[8]; unsigned long long base; int known, extra; char items[256] = {0};
-    int lm = 0; sscanf(line.c_str(), "arch=%7s base=%llu known=%d extra=%d label=%d items=%255s", an, &base, &known, &extra, &lm, items); cs.label_mode = lm;
+    int lm = 0, csec = 0;
+    if (line.find(" csec=") != std::string::npos) sscanf(line.c_str(), "arch=%7s base=%llu known=%d extra=%d label=%d csec=%d items=%255s", an, &base, &known, &extra, &lm, &csec, items);
+    else sscanf(line.c_str(), "arch=%7s base=%llu known=%d extra=%d label=%d items=%255s", an, &base, &known, &extra, &lm, items);
+    cs.label_mode = lm; cs.code_sec = csec;
     cs.arch = !strcmp(an, "x64") ? AX64 : !strcmp(an, "x86") ? AX86 : AA64; cs.base = base; cs.known_base = known; cs.extra_section = extra;
     for (auto& x : vh::split(items, ',')) if (!x.empty()) { Item it; if (sscanf(x.c_str(), "%d:%d:%d", &it.kind, &it.addr_type, &it.tsel) == 3) cs.items.push_back(it); }
   }
@@ -305,15 +316,15 @@ int main(int argc, char** argv) {
     std::vector<Item> al = item_alphabet(arch);
     for (uint64_t base : kBases) {
       if (arch == AX86 && base > 0xFFFFFFFFull) continue;
-      for (int known = 0; known < 2; known++) for (int extra = 0; extra < 2; extra++) {
+      for (int known = 0; known < 2; known++) for (int extra = 0; extra < 2; extra++) for (int csec = 0; csec < 2; csec++) {
         // all single items; pairs: quick = first item from a reduced set, thorough = all pairs
         for (size_t i = 0; i < al.size(); i++) {
-          for (int lm = 0; lm < 4; lm++) if (c.mine(idx++)) { Case cs{arch, base, (bool)known, {al[i]}, (bool)extra}; cs.label_mode = lm; if (!run_case(cs)) report(cs); else c.sample(cs.str(), 8); }
+          for (int lm = 0; lm < 4; lm++) if (c.mine(idx++)) { Case cs{arch, base, (bool)known, {al[i]}, (bool)extra}; cs.label_mode = lm; cs.code_sec = csec; if (!run_case(cs)) report(cs); else c.sample(cs.str(), 8); }
           if (max_items < 2) continue;
           for (size_t j = 0; j < al.size(); j++) {
             if (c.mine(idx++)) {
               if (c.tick(256)) goto done;
-              Case cs{arch, base, (bool)known, {al[i], al[j]}, (bool)extra}; cs.label_mode = int((i + 3 * j) & 3);
+              Case cs{arch, base, (bool)known, {al[i], al[j]}, (bool)extra}; cs.label_mode = int((i + 3 * j) & 3); cs.code_sec = csec;
               if (!run_case(cs)) report(cs);
             }
             if (!c.thorough()) continue;
@@ -321,7 +332,7 @@ int main(int argc, char** argv) {
             for (size_t k = (i + j) % 5; k < al.size(); k += 5) {
               if (!c.mine(idx++)) continue;
               if (c.tick(256)) goto done;
-              Case cs{arch, base, (bool)known, {al[i], al[j], al[k]}, (bool)extra};
+              Case cs{arch, base, (bool)known, {al[i], al[j], al[k]}, (bool)extra}; cs.code_sec = csec;
               if (!run_case(cs)) report(cs);
             }
           }
@@ -332,7 +343,7 @@ int main(int argc, char** argv) {
 done:
   c.n("distinct_nontrivial") = c.n("sites_checked");
   c.n("states") = c.n("evaluations"); c.n("transitions") = c.n("evaluations"); c.n("traces") = c.n("evaluations");
-  c.strs["bound"] = "programs of 1 and 2 items (all pairs)" + std::string(c.thorough() ? " and 3 items (third item every 5th symbol)" : "") + " x 8 bases x {known base, relocate} x {addrtab last, user section after addrtab} x 3 archs";
+  c.strs["bound"] = "programs of 1 and 2 items (all pairs)" + std::string(c.thorough() ? " and 3 items (third item every 5th symbol)" : "") + " x 8 bases x {known base, relocate} x {addrtab last, user section after addrtab} x {items in .text, items in a second code section} x 3 archs";
   c.strs["rule"] = "items = jmp/call/jnz to absolute targets, mov/cmp8/cmp32 with absolute memory operands under default/abs/rel addressing, embed_label 4/8, label memory operands, "
                    "a64 b/bl/adr to absolute targets; targets near, just inside/outside +-2 GiB (+-128 MiB, +-1 MiB for a64), fixed low/high addresses; each site of the relocated "
                    "image is decoded and evaluated like the CPU would, address-table slots are read from the copied image; an error from emit or relocate counts as 'reported'";
